@@ -73,6 +73,11 @@ class Snapshot:
 def o_inv(root, pre, op, res, extra):
     """C05."""
     out = intro.check_inv(root)
+    try:
+        if len(root.token_store) != sum(1 for _ in root.token_store):
+            out = out + [('store-length-drift', f'len(token_store) = {len(root.token_store)} but the store holds {sum(1 for _ in root.token_store)} tokens')]
+    except Exception as e:
+        out = out + [('store-length-raises', repr(e)[:120])]
     sig_suffix = ':' + op['kind'] if op else ''
     out = [(s + sig_suffix, d) for s, d in out]
     if res and res[0] == 'ok' and op and op['kind'] in ('rep-pop', 'view-pop', 'rep-pop-insert', 'meta-popkey') and isinstance(res[1], base.RawModel):
@@ -143,7 +148,7 @@ def o_frame(root, pre, op, res, extra):
     if not res or res[0] != 'ok' or pre.parent is None:
         return []
     kind = op['kind']
-    if kind in ('spacing', 'claim', 'unclaim', 'claim-inter', 'unclaim-inter', 'tok-raw-bad', 'rep-pop-insert'):
+    if kind in ('spacing', 'claim', 'unclaim', 'claim-inter', 'unclaim-inter', 'tok-raw-bad', 'rep-pop-insert', 'rep-assign'):
         return []  # not single slot edits (pop+insert is two)
     out = []
     post = list(root.token_store)
